@@ -322,6 +322,14 @@ def run(prog, R):
             ok = ok and r == ("field", ("field", ("call", lk.npath, (("arg", 1, "self"), ("arg", 2, "name")), r[1][1][3], False), 0), 1) if r[0] == "field" and r[1][0] == "field" and r[1][1][0] == "call" else False
         R.ob("C19.3-lookup_or_new_binding", "binds-iff-Err:" + ("Err" if is_err else "Ok"), ok, lonb.at, f"binds={len(binds)} on path with lookup is_err={is_err}; ret={show(p.env.get(0))}")
 
+    # ---------------- C19.4 the unchecked binder is reachable only behind the two tests decided here (new_binding: name
+    # not in the current scope; lookup_or_new_binding: name not visible at all); any other caller can replace a binding
+    cgx = prog.callgraph()
+    callers_nb = sorted(k for k, v in cgx.items() if nb.npath in v)
+    want_nb = sorted([M + "SymbolTable::new_binding", M + "SymbolTable::lookup_or_new_binding"])
+    R.ob("C19.4-unchecked-binder-callers", "new_binding_no_check", callers_nb == want_nb, nb.at,
+         f"callers: {[c.split('::')[-1] for c in callers_nb]}" if callers_nb == want_nb else
+         f"new_binding_no_check is called from {callers_nb} (expected only {want_nb}): a binding made there is not preceded by the test that the name is unbound in the current scope, so it can replace the first binding of the name")
     # ---------------- C19.4 binding fails iff current scope has the name
     cscn = prog.body(M + "SymbolTable::current_scope_contains_name")
     for p in SymExec(prog, nbind).paths():
